@@ -1,3 +1,6 @@
+\* behaviour export: every single-cut behaviour
+\* (tools/checks/c09.py builds its configurations from the same template; this file is the thorough-tier one, for manual runs:
+\*  java -cp $TLA_CP tlc2.TLC -config StreamCli_gen1.cfg StreamCliMC)
 SPECIFICATION Spec
 CONSTANTS
   KindSet = {"post", "sa"}
